@@ -329,6 +329,16 @@ func BuildArgv(g *GenSpec, w *World, root, top string) (argv []string, dir strin
 	case "abs":
 		dir = top
 		argv = append(argv, "-cwd", root)
+	case "abs-slash":
+		dir = top
+		argv = append(argv, "-cwd", root+"/")
+	case "symlink":
+		// -cwd names a symbolic link to the module root
+		dir = top
+		link := root + "-link"
+		_ = os.Remove(link)
+		_ = os.Symlink(root, link)
+		argv = append(argv, "-cwd", link)
 	case "rel":
 		dir = filepath.Dir(root)
 		argv = append(argv, "-cwd", "./"+filepath.Base(root))
@@ -508,6 +518,7 @@ func (r *Runner) gen(root, top string, w *World, g *GenSpec, inputs map[string]s
 		}
 	}
 	norm := func(s string) string {
+		s = strings.ReplaceAll(s, root+"-link", "@root")
 		s = strings.ReplaceAll(s, root, "@root")
 		return s
 	}
